@@ -119,6 +119,7 @@ type CertOpts struct {
 	NoSKI   bool
 	SKI     []byte // explicit SKI bytes (nil: derive from the key)
 	KeyType string // "" / p256, p384, ed25519, rsa
+	AKI     []byte // authority key identifier (nil: none)
 }
 
 // keySKI: SHA-1 over the subjectPublicKey bit string (RFC 3280 4.2.1.2 method 1), for any key type.
@@ -172,6 +173,9 @@ func MakeCert(o CertOpts) (tls.Certificate, string, error) {
 		Subject:   pkix.Name{Organization: []string{"verif"}, CommonName: "adversary"},
 		NotBefore: time.Now().Add(-time.Hour), NotAfter: time.Now().Add(24 * time.Hour), KeyUsage: x509.KeyUsageDigitalSignature,
 		BasicConstraintsValid: true, IsCA: true}
+	if o.AKI != nil {
+		tmpl.AuthorityKeyId = o.AKI
+	}
 	if !o.NoSKI {
 		tmpl.SubjectKeyId = ski
 	} else {
